@@ -98,6 +98,7 @@ theorem normalize_of_Normal : ∀ (q : Q), Normal q = true → normalize q = q
     unfold binNormalize
     cases k <;> simp [hna, hnb]
   | .const _ _, _ => rfl
+  | .opq _ _, _ => rfl
 theorem normalizeList_of_Normal : ∀ (l : List Q), NormalList l = true → normalizeList l = l
   | [], _ => rfl
   | q :: qs, h => by
